@@ -120,7 +120,12 @@ type Server struct {
 // StartServer launches `bin start` and waits until both ports answer.
 func StartServer(bin, mode, keys, scratch, tag string, env []string, extraArgs ...string) (*Server, error) {
 	ports := FreePorts(2)
-	s := &Server{ProverAddr: fmt.Sprintf("127.0.0.1:%d", ports[0]), MetricsAddr: fmt.Sprintf("127.0.0.1:%d", ports[1]),
+	return StartServerOn(bin, mode, keys, scratch, tag, env, fmt.Sprintf("127.0.0.1:%d", ports[0]), fmt.Sprintf("127.0.0.1:%d", ports[1]), extraArgs...)
+}
+
+// StartServerOn is StartServer on two given addresses.
+func StartServerOn(bin, mode, keys, scratch, tag string, env []string, proverAddr, metricsAddr string, extraArgs ...string) (*Server, error) {
+	s := &Server{ProverAddr: proverAddr, MetricsAddr: metricsAddr,
 		StderrPath: filepath.Join(scratch, tag+".stderr"), StdoutPath: filepath.Join(scratch, tag+".stdout"), EventLog: filepath.Join(scratch, tag+".events"), done: make(chan struct{})}
 	args := append([]string{"start", "--mode", mode, "--keys-file", keys, "--prover-address", s.ProverAddr, "--metrics-address", s.MetricsAddr}, extraArgs...)
 	s.Cmd = exec.Command(bin, args...)
